@@ -47,6 +47,74 @@ def oracle(sc):
     return out
 
 
+def reconnect_requests(close_suspends, connect_suspends, cause):
+    """a client reconnects (after EOF with on_close -> reconnect(), or on an explicit reconnect() of a live connection) while
+    the old transport's close() and the new transport's connect() each take a few loop iterations; a request-response
+    is issued in EVERY iteration of that window.  Each awaitable handed out must either be resolved, or belong to the new
+    connection (its request frame written to the new transport)."""
+    import asyncio
+    from datetime import timedelta
+    from harness import sim
+    from rsocket.rsocket_client import RSocketClient
+    from rsocket.request_handler import BaseRequestHandler
+    from rsocket.payload import Payload
+    loop = sim.new_loop()
+    sim.patch_clock(loop)
+    T = sim.make_transport_class()
+    ts = [T(lenreq=True, name='a'), T(lenreq=True, connect_suspends=connect_suspends, name='b')]
+    ts[0].close_suspends = close_suspends
+
+    async def provider():
+        for x in ts:
+            yield x
+
+    class H(BaseRequestHandler):
+        async def on_close(self, rsocket, exception=None):
+            if cause == 'eof':
+                await rsocket.reconnect()
+    box = {}
+    futs = []
+    try:
+        def mk():
+            box['c'] = RSocketClient(provider(), handler_factory=H, keep_alive_period=timedelta(seconds=1000),
+                                     max_lifetime_period=timedelta(seconds=5000))
+            asyncio.create_task(box['c'].connect())
+        loop.run(mk)
+        loop.settle()
+        c = box['c']
+        if cause == 'eof':
+            ts[0].inject_eof()
+        else:
+            loop.run(lambda: asyncio.create_task(c.reconnect()))
+        for k in range(6 + 2 * (close_suspends + connect_suspends)):
+            def issue(k=k):
+                try:
+                    futs.append((k, c.request_response(Payload(b'r%d' % k))))
+                except Exception:
+                    pass
+            loop.run(issue)
+        loop.settle()
+        sent_new = [sim.parse_sent(b) for b in ts[1].sent]
+        on_new = {bytes(f.get('d') or b'') for f in sent_new if f.get('t') == 'RequestResponse'}
+        lost = [k for k, f in futs if not f.done() and (b'r%d' % k) not in on_new]
+        return {'issued': len(futs), 'lost': lost, 'reconnected': ts[1].connected,
+                'first_new': sent_new[0]['t'] if sent_new else None}
+    finally:
+        loop.finish()
+
+
+def reconnect_oracle():
+    out = []
+    for cs in (0, 1, 2, 4):
+        for ns in (0, 1, 3):
+            for cause in ('eof', 'explicit'):
+                r = reconnect_requests(cs, ns, cause)
+                if r['lost'] or not r['reconnected']:
+                    out.append({'what': 'awaitable-neither-resolved-nor-on-the-new-connection', 'reconnect_case': [cs, ns, cause],
+                                'detail': repr(r)})
+    return out
+
+
 def _descs(ctx, n):
     return E.mk_descs(ctx.rng, n, hostile=0.0, with_close=lambda r: r.random() < 0.75, steps=(3, 16), frag=0.2,
                       close_mode=lambda r: r.choice(['eof', 'error', 'close', 'cut']), race=0.5,
@@ -61,6 +129,8 @@ def correspond(ctx, corr, model_ok):
         corr.oracle_failures.extend(oracle(sc))
         corr.count('closed:' + str(getattr(sc, 'close_used', 'no')))
         corr.count('fragmented', sc.fragmented)
+    corr.oracle_failures.extend(reconnect_oracle())
+    corr.count('reconnect windows with a request per loop iteration', 24)
     if model_ok:
         E.trace_corr(corr, runs, KEEP, KEYS, 'C07 signals vs model/Endpoint.v')
     corr.rule = ('legal random histories of 3..16 application/peer actions on a real endpoint, connection lost at a random '
@@ -77,10 +147,15 @@ def search(ctx, budget):
         found.extend(crashed)
         for sc in runs:
             found.extend(oracle(sc))
+        found.extend(reconnect_oracle())
     return found
 
 
 def replay(obj):
     case = obj.get('case') or obj
+    if 'reconnect_case' in case:
+        cs, ns, cause = case['reconnect_case']
+        r = reconnect_requests(cs, ns, cause)
+        return bool(r['lost']) or not r['reconnected']
     runs, crashed = E.run_all([case['scenario']])
     return bool(crashed) or any(oracle(sc) for sc in runs)
